@@ -220,3 +220,33 @@ def clause_finish_order(r, mir):
     r.inst("finish|flush-before-end-handlers", sample={"flushes": len(fl), "handle_end": len(he)})
     if len(fl) != 1 or not he or not all(dfin.dominates(fl[0], h) for h in he):
         r.violate("finish|flush-before-end-handlers", "DispatcherDelegate::finish runs the document-end handlers before (or without) flushing the remaining input: content appended at document end lands in front of the bytes still pending at end(), and a failing end handler loses them", dfin.loc())
+
+
+def clause_raw_entry_compares_keys(r, mir):
+    """a raw-entry lookup by precomputed hash must confirm the key: its match closure returns the result of comparing the
+    names (hash tags collide, and the map's random seed differs per instance, so skipping the comparison merges distinct
+    element names differently in every rewriter)"""
+    n = 0
+    for f in mir.fns:
+        if mir.is_test_fn(f):
+            continue
+        for bi, t in f.calls(r"::from_hash$"):
+            n += 1
+            clos = [a for a in t["args"] if a.get("k") in ("copy", "move")]
+            cname = None
+            for a in clos:
+                for kind, dbi, x in f.defs_of(a["p"]["local"]):
+                    if kind == "assign" and x["rv"]["k"] == "agg" and x["rv"].get("what") == "closure":
+                        cname = x["rv"]["name"]
+            key = f.key + "|from_hash"
+            g = [h for h in mir.fns if h.path == cname] if cname else []
+            ok = False
+            if g:
+                g = g[0]
+                eqs = [(ebi, et) for ebi, et in g.calls(r"eq\[PartialEq\]$|::eq$")]
+                consts = [st for b in g.blocks for st in b["stmts"] if st["k"] == "assign" and st["p"]["local"] == 0 and not st["p"]["proj"] and st["rv"]["k"] == "use" and st["rv"]["o"]["k"] == "const"]
+                ok = len(eqs) == 1 and eqs[0][1]["dest"]["local"] == 0 and not consts
+            r.inst(key, sample={"lookup_in": f.key, "match_closure": cname})
+            if not ok:
+                r.violate(key, f"{f.key}: the match closure of a raw-entry lookup by hash does not return exactly the comparison of the two keys: names with colliding hash tags are merged, and since the hash seed is random per map the outcome differs between rewriters, threads and runs", f.loc())
+    return n
